@@ -37,13 +37,17 @@ Lemma apply_refuted :
   exists (L R : list line) (cs : list (chunk line)),
     patch_ok L R cs /\
     x_unified pinned None cs = [64;64;32;45;49;44;48;32;43;49;32;64;64;10; 43;98;10]%N /\   (* "@@ -1,0 +1 @@\n+b\n" *)
-    apply_unified L (split_lines (x_unified pinned None cs)) = Some [[97]; [98]]%N /\
-    apply_unified L (split_lines (x_unified pinned None cs)) <> Some R.
+    (* placed by its left range alone (what GNU patch does) the line lands after line 1 *)
+    apply_unified_gen false L (split_lines (x_unified pinned None cs)) = Some [[97]; [98]]%N /\
+    (* and the hunk contradicts itself: line 1 of the new file cannot follow line 1 of the old one *)
+    apply_unified L (split_lines (x_unified pinned None cs)) = None /\
+    apply_unified_gen false L (split_lines (x_unified pinned None cs)) <> Some R.
 Proof.
-  exists [[97]%N], [[98]; [97]]%N, f6_cs. split; [|split; [|split]].
+  exists [[97]%N], [[98]; [97]]%N, f6_cs. split; [|split; [|split; [|split]]].
   - unfold patch_ok, f6_cs.
     apply (cf_cons _ 1 1 [] (mkChunk [mkEdit Copy [] [[98]%N]] 1 1 1 2) [] [[97]%N] [[97]%N]); try reflexivity.
     apply (cf_nil _ 1 2 [[97]%N]).
+  - vm_compute. reflexivity.
   - vm_compute. reflexivity.
   - vm_compute. reflexivity.
   - vm_compute. discriminate.
